@@ -302,6 +302,18 @@ func checkCase(c Case) error {
 		if ps, err := device.ParseDevicePath(bytes.NewReader(node(unterminated))); err == nil {
 			return fmt.Errorf("file-path node whose name %q lacks the terminator decodes without error to %#v", c.S, ps)
 		}
+		// the node decoder on its own (exported): the body alone, as the path decoder hands it over
+		hdr := &device.EFIDevicePath{Type: 4, SubType: 4, Length: [2]uint8{byte(len(want) + 4), byte((len(want) + 4) >> 8)}}
+		if n, err := device.ParseMediaDevicePath(bytes.NewReader(want), hdr); err != nil {
+			return fmt.Errorf("ParseMediaDevicePath of a file-path body named %q: %v", c.S, err)
+		} else if f, ok := n.(device.FileTypeMediaDevicePath); !ok || f.PathName != c.S {
+			return fmt.Errorf("ParseMediaDevicePath of a file-path body named %q decodes to %#v", c.S, n)
+		}
+		if len(unterminated) > 0 {
+			if n, err := device.ParseMediaDevicePath(bytes.NewReader(unterminated), hdr); err == nil {
+				return fmt.Errorf("ParseMediaDevicePath of a file-path body whose name %q lacks the terminator returns %#v and no error", c.S, n)
+			}
+		}
 	}
 	return nil
 }
